@@ -140,7 +140,26 @@ class Ctx:
         if value > self.stats.get(name, 0):
             self.stats[name] = value
 
+    def start_heartbeat(self, limit_s):
+        """A case that blocks inside one C call (a regular expression that backtracks for ever, a libyaml loop) cannot be
+        interrupted by SIGALRM.  A daemon thread ends the worker (exit status 98) when no bread crumb was written for
+        limit_s seconds; the parent then re-runs the bread-crumbed case alone to confirm."""
+        import threading
+        self.last_crumb = time.time()
+
+        def watch():
+            while True:
+                time.sleep(2)
+                if time.time() - self.last_crumb > limit_s:
+                    try:
+                        self.out.flush()
+                        os.write(2, b'worker: no progress for %d s on the bread-crumbed case, giving up\n' % limit_s)
+                    finally:
+                        os._exit(98)
+        threading.Thread(target=watch, daemon=True).start()
+
     def crumb(self, case):
+        self.last_crumb = time.time()
         if self.crumbf:
             f = self.crumbf
             f.seek(0)
@@ -304,7 +323,7 @@ def run_shards(check_id, specs, tmp, timeout_s, jobs=None):
                 r.crumb = json.loads(c) if c else None
             except (OSError, ValueError):
                 r.crumb = None
-            if rc == 'timeout':
+            if rc == 'timeout' or rc == 98:
                 r.status = 'timeout'
             elif rc == 0 and r.done:
                 r.status = 'ok'
